@@ -252,10 +252,17 @@ def _evaluate(pid, d, res, results, tier):
     nontrivial = set()
     ev_total = 0
     crashes = 0
+    n_lease_env = 0
     for r in results:
         fam_count[r["family"]] = fam_count.get(r["family"], 0) + 1
         ev_total += r["n_events"]
         env = simlib.envset(r)
+        if pid == "C02" and r.get("env_first") == -1:
+            # the hypothesis of theorem C02_partial_one_claimant_backed_by_its_record holds on this real trace
+            n_lease_env += 1
+            if not r["guards"] and any(c in (201, 202) for _, c in r["alarms"]):
+                res.tie_broken.append("extracted monitors contradict theorem C02_partial_one_claimant_backed_by_its_record on an admitted trace in its "
+                                      "environment (scenario %s): extraction or oracle glue is wrong" % r["name"])
         applicable = not (env & d["env_excl"])
         if applicable:
             n_applicable += 1
@@ -307,6 +314,7 @@ def _evaluate(pid, d, res, results, tier):
         "scenarios_in_property_environment": n_applicable,
         "traces_validated_against_impl": len(results),
         "events": ev_total,
+        **({"traces_satisfying_the_lease_theorem_hypothesis": n_lease_env} if pid == "C02" else {}),
         "families": fam_count,
         "crashed_or_hung": crashes,
         "rule": "seeded simulator scenarios of the listed generator families (harness/sim/gen.go) run on the real library under testing/synctest; "
@@ -318,10 +326,10 @@ def _evaluate(pid, d, res, results, tier):
     return res.finish()
 
 
-ALL_STORE_RULES = {2001, 2002, 2004, 2005, 2006, 2007, 2009, 2010, 2011, 2012, 2013, 2020, 2021, 2022, 2050, 2052, 2060, 2061}
+ALL_STORE_RULES = {2000, 2001, 2002, 2004, 2005, 2006, 2007, 2008, 2009, 2010, 2011, 2012, 2013, 2014, 2020, 2021, 2022, 2023, 2050, 2052, 2060, 2061}
 GUARD_OWNERS = {
     "C01": ALL_STORE_RULES, "C05": {2002, 2003, 2004}, "C10": {2005}, "C13": {2032, 2006, 2005}, "C09": {2030, 2040, 2041},
-    "C08": {2042, 2043, 2044, 2045, 2046}, "C07": {2031}, "C02": {2012, 2032, 2031},
+    "C08": {2042, 2043, 2044, 2045, 2046}, "C07": {2031, 2070}, "C02": {2000, 2012, 2014, 2023, 2032, 2031, 2033, 2034, 2070},
 }
 RULE_TEXT = {
     2001: "a store call targets the instance's own group key", 2002: "a Create publishes the issuer's id, priority and a non-empty token",
@@ -335,6 +343,9 @@ RULE_TEXT = {
     2042: "the promotion callback is entered while its term is alive", 2043: "one promotion callback per term",
     2044: "a demotion callback only when one is owed", 2045: "the claim is raised only when no demotion callback is owed",
     2046: "a term that ends has had its promotion callback entered",
+    2000: "observations are in time order", 2008: "store calls are issued by a configured instance", 2014: "the record is deleted only by an instance that does not claim leadership",
+    2023: "a store call returns to its caller once", 2033: "the claim is raised at the instant the winning write returns", 2034: "a run whose context has been cancelled does not raise the claim",
+    2070: "a leader without health checker that is not shutting down starts its next refresh on time (ticker / per-attempt time-out)",
 }
 
 
